@@ -65,7 +65,8 @@ def micro_c04_scenario(index: int, r) -> Dict[str, Any]:
     bars = [[1, _s(pre), _s(pre), _s(pre), _s(pre), "1000"],
             [2, _s(px["open"]), _s(px["high"]), _s(px["low"]), _s(px["close"]), "1000"]] + tail
     fee = None if r.random() < 0.6 else {"pct": r.choice(["0.1", "1.5"]), "min": r.choice(["0", "0.01"])}
-    return {"class": "micro_c04", "symbols": {"BTC": bp, "USD": qp}, "pairs": [["BTC", "USD"]],
+    base_fee = r.choice(["0.1", "1"]) if fee is None and r.random() < 0.25 else None
+    return {"class": "micro_c04", "base_fee_pct": base_fee, "symbols": {"BTC": bp, "USD": qp}, "pairs": [["BTC", "USD"]],
             "explicit_pair_info": [0] if r.random() < 0.5 else [], "fee": fee, "liq": None, "lend": None,
             "max_concurrent": r.choice([1, 50]), "bars": {"BTC/USD": bars},
             "init": {"USD": "1000000000", "BTC": "1000000"}, "actions": {"BTC/USD@1": [order]},
